@@ -42,6 +42,7 @@ structure FixPost (ver : Ver) (H : Bytes → Bytes) (T0 : Trie) (pre : Nibs) (ol
   mem : n.isMem = true
   fresh : ∀ pos ∈ news, Below pre pos ∧ ¬ Needs n pre pos
   mono : ∀ pos, Needs n pre pos → Needs old pre pos
+  valid : ∀ pos ∈ news, ValidPos ver H T0 pos
 
 theorem fix_sim (e : Env) (T0 : Trie) (hdb : DbOk e T0) (c : Option Bytes) (pre pk : Nibs)
     (bv : Option DVal) (cs : Nib → Hd) (d : Death)
@@ -57,7 +58,7 @@ theorem fix_sim (e : Env) (T0 : Trie) (hdb : DbOk e T0) (c : Option Bytes) (pre 
   have hself : FixPost e.ver e.H T0 pre (.branch c pk bv cs)
       (branch pk (bv.map (absV T0 (pre ++ pk))) (fun i => abs T0 (cs i) (pre ++ pk ++ [i])))
       (.branch none pk bv cs) [] := by
-    refine ⟨⟨hvals, hkids, fun h hh => by cases hh⟩, rfl, rfl, rfl, by simp, ?_⟩
+    refine ⟨⟨hvals, hkids, fun h hh => by cases hh⟩, rfl, rfl, rfl, by simp, ?_, by simp⟩
     intro pos hn
     simp only [Needs] at hn ⊢
     rcases hn with ⟨h, _⟩ | h
@@ -75,7 +76,8 @@ theorem fix_sim (e : Env) (T0 : Trie) (hdb : DbOk e T0) (c : Option Bytes) (pre 
         simp [Trie.isNil, hi] at h2
     | some dv =>
       refine ⟨_, [], rfl, ?_⟩
-      refine ⟨⟨hvals dv rfl, fun h hh => by cases hh⟩, by simp [abs, lcpLen_self], rfl, rfl, by simp, ?_⟩
+      refine ⟨⟨hvals dv rfl, fun h hh => by cases hh⟩, by simp [abs, lcpLen_self], rfl, rfl, by simp, ?_,
+        by simp⟩
       intro pos hn
       simp only [Needs] at hn ⊢
       rcases hn with ⟨h, _⟩ | h
@@ -98,14 +100,19 @@ theorem fix_sim (e : Env) (T0 : Trie) (hdb : DbOk e T0) (c : Option Bytes) (pre 
       -- the row of a cached child is scheduled for deletion
       have hdeath : ∃ news : List Pos,
           childDeath stored (pre ++ pk ++ [i]) d = news.map (rowOf e.ver e.H T0) ++ d ∧
-          ∀ pos ∈ news, pos = .node (pre ++ pk ++ [i]) := by
+          (∀ pos ∈ news, pos = .node (pre ++ pk ++ [i])) ∧
+          ∀ pos ∈ news, ValidPos e.ver e.H T0 pos := by
         unfold childDeath
         cases hc : stored.cached with
-        | none => exact ⟨[], rfl, by simp⟩
+        | none => exact ⟨[], rfl, by simp, by simp⟩
         | some h =>
           obtain ⟨hh, _, _⟩ := ok_cached hoks hc hm
-          exact ⟨[.node (pre ++ pk ++ [i])], by simp [rowOf, hh.2.1], by simp⟩
-      obtain ⟨news, hdn, hnews⟩ := hdeath
+          refine ⟨[.node (pre ++ pk ++ [i])], by simp [rowOf, hh.2.1], by simp, ?_⟩
+          intro pos hpos
+          simp only [List.mem_singleton] at hpos
+          subst hpos
+          exact validPos_of_hashAt hh
+      obtain ⟨news, hdn, hnews, hvalid⟩ := hdeath
       rw [hdn]
       cases stored with
       | none => simp [Hd.isMem] at hm
@@ -116,7 +123,7 @@ theorem fix_sim (e : Env) (T0 : Trie) (hdb : DbOk e T0) (c : Option Bytes) (pre 
         rw [← habs]
         refine ⟨_, news, by simp only [fixMerge]; rfl, ?_⟩
         refine ⟨⟨by rw [← path4]; exact hoks.1, fun h hh => by cases hh⟩, by simp [abs, path4], rfl,
-          rfl, ?_, ?_⟩
+          rfl, ?_, ?_, hvalid⟩
         · intro pos hpos
           rw [hnews pos hpos]
           refine ⟨by rw [List.append_assoc]; exact List.prefix_append _ _, ?_⟩
@@ -135,7 +142,7 @@ theorem fix_sim (e : Env) (T0 : Trie) (hdb : DbOk e T0) (c : Option Bytes) (pre 
         obtain ⟨hv2, hk2, _⟩ := hoks
         refine ⟨_, news, by simp only [fixMerge]; rfl, ?_⟩
         refine ⟨⟨by rw [← path4]; exact hv2, fun j => by rw [← path4]; exact hk2 j,
-          fun h hh => by cases hh⟩, by simp [abs, path4], rfl, rfl, ?_, ?_⟩
+          fun h hh => by cases hh⟩, by simp [abs, path4], rfl, rfl, ?_, ?_, hvalid⟩
         · intro pos hpos
           rw [hnews pos hpos]
           refine ⟨by rw [List.append_assoc]; exact List.prefix_append _ _, ?_⟩
@@ -164,7 +171,7 @@ theorem fix_sim (e : Env) (T0 : Trie) (hdb : DbOk e T0) (c : Option Bytes) (pre 
 def RemPost (ver : Ver) (H : Bytes → Bytes) (T0 : Trie) (pre : Nibs) (hd : Hd) (target : Trie)
     (r : Option (Hd × Bool)) (news : List Pos) : Prop :=
   match r with
-  | none => target = nil ∧ ∀ pos ∈ news, Below pre pos
+  | none => target = nil ∧ ∀ pos ∈ news, Below pre pos ∧ ValidPos ver H T0 pos
   | some (hd', ch) => target ≠ nil ∧ OpPost ver H T0 pre hd target ch hd' news
 
 def RecRemove (ver : Ver) (H : Bytes → Bytes) (T0 : Trie) (bound : Nat)
@@ -186,7 +193,7 @@ theorem afterInspect_refl {stored : Hd} (hm : stored.isMem = true) (pre : Nibs) 
 theorem opPost_refl {ver : Ver} {H : Bytes → Bytes} {T0 : Trie} {pre : Nibs} {stored : Hd}
     (hok : Ok ver H T0 stored pre) (hm : stored.isMem = true) :
     OpPost ver H T0 pre stored (abs T0 stored pre) false stored [] :=
-  ⟨hok, rfl, hm, by simp, fun _ h => h, fun _ => ⟨rfl, fun h => ⟨h, rfl⟩⟩⟩
+  ⟨hok, rfl, hm, by simp, fun _ h => h, fun _ => ⟨rfl, fun h => ⟨h, rfl⟩⟩, by simp⟩
 
 /-- the node stays as it is -/
 theorem removeKeep_refl {ver : Ver} {H : Bytes → Bytes} {T0 : Trie} {pre : Nibs} {stored : Hd}
@@ -223,16 +230,20 @@ theorem removeFixed_post {ver : Ver} {H : Bytes → Bytes} {T0 : Trie} {pre : Ni
     {fixNews extra : List Pos} (d : Death)
     (hf : FixPost ver H T0 pre old target n fixNews) (hne : target ≠ nil)
     (hold : ∀ pos, Needs old pre pos → Needs stored pre pos)
-    (hextra : ∀ pos ∈ extra, Below pre pos ∧ ¬ Needs old pre pos) :
+    (hextra : ∀ pos ∈ extra, (Below pre pos ∧ ¬ Needs old pre pos) ∧ ValidPos ver H T0 pos) :
     ∃ r news, removeFixed stored pre (.ok (n, fixNews.map (rowOf ver H T0) ++ (extra.map (rowOf ver H T0) ++ d))) =
         .ok (r, news.map (rowOf ver H T0) ++ d) ∧
       RemPost ver H T0 pre stored target r news := by
   have hp : InspPost ver H T0 pre stored target true n (fixNews ++ extra) := by
-    refine ⟨hf.ok, hf.abs, hf.cached, hf.mem, ?_, fun pos h => hold pos (hf.mono pos h), by simp⟩
-    intro pos hpos
-    rcases List.mem_append.mp hpos with h | h
-    · exact hf.fresh pos h
-    · exact ⟨(hextra pos h).1, fun hn => (hextra pos h).2 (hf.mono pos hn)⟩
+    refine ⟨hf.ok, hf.abs, hf.cached, hf.mem, ?_, fun pos h => hold pos (hf.mono pos h), by simp, ?_⟩
+    · intro pos hpos
+      rcases List.mem_append.mp hpos with h | h
+      · exact hf.fresh pos h
+      · exact ⟨(hextra pos h).1.1, fun hn => (hextra pos h).1.2 (hf.mono pos hn)⟩
+    · intro pos hpos
+      rcases List.mem_append.mp hpos with h | h
+      · exact hf.valid pos h
+      · exact (hextra pos h).2
   have := removeKeep_post hok hm hp hne d
   simpa [removeFixed, List.map_append, List.append_assoc] using this
 
@@ -259,7 +270,9 @@ theorem removeNode_sim (e : Env) (T0 : Trie) (hdb : DbOk e T0)
         · simp only [afterDelete, Hd.cached]; congr 2; split <;> rfl
         · intro pos hpos
           split at hpos
-          · simp at hpos; subst hpos; exact List.prefix_append _ _
+          · rename_i hr
+            simp at hpos; subst hpos
+            exact ⟨List.prefix_append _ _, validPos_of_ref hok.1 hr⟩
           · cases hpos
       | some h =>
         obtain ⟨hh, _, _⟩ := hok.2 h hc
@@ -268,9 +281,11 @@ theorem removeNode_sim (e : Env) (T0 : Trie) (hdb : DbOk e T0)
           congr 3; split <;> rfl
         · intro pos hpos
           rcases List.mem_cons.mp hpos with rfl | hpos
-          · exact List.prefix_refl _
+          · exact ⟨List.prefix_refl _, validPos_of_hashAt hh⟩
           · split at hpos
-            · simp at hpos; subst hpos; exact List.prefix_append _ _
+            · rename_i hr
+              simp at hpos; subst hpos
+              exact ⟨List.prefix_append _ _, validPos_of_ref hok.1 hr⟩
             · cases hpos
     · simp only [hk, if_false]
       exact removeKeep_refl hok hm d rfl
@@ -317,8 +332,9 @@ theorem removeNode_sim (e : Env) (T0 : Trie) (hdb : DbOk e T0)
           · exact Or.inr (Or.inr h)
         · intro pos hpos
           split at hpos
-          · simp at hpos; subst hpos
-            refine ⟨List.prefix_append _ _, ?_⟩
+          · rename_i hr
+            simp at hpos; subst hpos
+            refine ⟨⟨List.prefix_append _ _, ?_⟩, validPos_of_ref (hvals lv rfl) hr⟩
             intro hn
             simp only [Needs] at hn
             rcases hn with ⟨_, h⟩ | ⟨h, _⟩ | ⟨i, hi⟩
@@ -349,7 +365,8 @@ theorem removeNode_sim (e : Env) (T0 : Trie) (hdb : DbOk e T0)
             isNil_false_of_ne hcne
           simp only [hnn, Bool.false_eq_true, if_false]
           refine removeKeep_post hok' hm ?_ (by simp) d
-          refine ⟨⟨hvals, ok_setKid hkids hpc.ok, fun h hh => by cases hh⟩, ?_, rfl, rfl, ?_, ?_, ?_⟩
+          refine ⟨⟨hvals, ok_setKid hkids hpc.ok, fun h hh => by cases hh⟩, ?_, rfl, rfl, ?_, ?_, ?_,
+            hpc.valid⟩
           · simp only [abs, abs_setKid, hpc.abs]
           · intro pos hpos
             obtain ⟨hb, hnn⟩ := hpc.fresh pos hpos
@@ -431,8 +448,9 @@ theorem removeNode_sim (e : Env) (T0 : Trie) (hdb : DbOk e T0)
               · exact h.elim
               · exact Or.inr (Or.inr ⟨i, h⟩)
           · intro pos hpos
-            have hb := hbel pos hpos
-            refine ⟨below_trans (by rw [List.append_assoc]; exact List.prefix_append _ _) hb, ?_⟩
+            have hb := (hbel pos hpos).1
+            refine ⟨⟨below_trans (by rw [List.append_assoc]; exact List.prefix_append _ _) hb, ?_⟩,
+              (hbel pos hpos).2⟩
             intro hn
             simp only [Needs] at hn
             rcases hn with ⟨_, hp⟩ | ⟨_, hp⟩ | ⟨i, hi⟩
@@ -448,5 +466,32 @@ theorem removeNode_sim (e : Env) (T0 : Trie) (hdb : DbOk e T0)
         intro h; omega
       simp only [hc1, hlt, hne, hoff, if_false, if_true, Bool.false_eq_true]
       exact removeKeep_refl hok' hm d (by simp [abs])
+
+/-- **remove on a consistent handle tree** -/
+theorem removeAt_sim (e : Env) (T0 : Trie) (hdb : DbOk e T0) :
+    ∀ fuel, RecRemove e.ver e.H T0 fuel (removeAt e fuel) := by
+  intro fuel
+  induction fuel with
+  | zero => intro hd q k d0 hk; omega
+  | succ f ih =>
+    intro hd q k d0 hk hok hn hcan
+    obtain ⟨stored, hres, hm, hoks, habs, hmono, hnf⟩ := resolve_sim e T0 hdb hd q hok hn
+    have hrec : RecRemove e.ver e.H T0 k.length (removeAt e f) := by
+      intro hd' q' k' d' hk'
+      exact ih hd' q' k' d' (by omega)
+    obtain ⟨r, news, heq, hp⟩ := removeNode_sim e T0 hdb (removeAt e f) stored q k d0 hm hoks
+      (by rw [habs]; exact hcan) hrec
+    refine ⟨r, news, by simp only [removeAt, hres, heq], ?_⟩
+    rw [habs] at hp
+    cases r with
+    | none => exact hp
+    | some p =>
+      obtain ⟨hd', ch⟩ := p
+      obtain ⟨hne, hp⟩ := hp
+      exact ⟨hne, ⟨hp.ok, hp.abs, hp.mem, hp.fresh, fun pos h => hmono pos (hp.mono pos h), fun hch => by
+        obtain ⟨h1, h2⟩ := hp.same hch
+        exact ⟨h1, fun hh => by
+          obtain ⟨h3, h4⟩ := h2 (hnf hh)
+          exact ⟨h3, by rw [h4, habs]⟩⟩, hp.valid⟩⟩
 
 end Gossamer.C06
